@@ -363,11 +363,18 @@ class CallGraph:
         if p in ("alloc::string::ToString::to_string", "core::fmt::rt::Argument::<'_>::new_display",
                  "core::fmt::Display::fmt"):
             out = set()
+            if not hasattr(self, "_display_impls"):
+                self._display_impls = {}
+                for g in self.fns.values():
+                    d = getattr(g, "d", {})
+                    if g.name == "fmt" and (d.get("impl_trait") or "").endswith("fmt::Display") and d.get("impl_self"):
+                        self._display_impls.setdefault(d["impl_self"], set()).add(g.path)
             for a in f.get("args", []):
-                a = a.lstrip("&")
+                a = a.lstrip("&").replace("mut ", "")
                 cand = "<%s as core::fmt::Display>::fmt" % a
                 if cand in self.fns:
                     out.add(cand)
+                out |= self._display_impls.get(a, set())
             if out:
                 return out
         return {tgt} if tgt else set()
